@@ -320,6 +320,10 @@ func (e *Engine) typeSpecForSort(ssort string) *TypeSpec {
 		if ssort == "St_"+pkg+"_"+name || strings.HasPrefix(ssort, "St_"+pkg+"_"+name+"_") {
 			return ts
 		}
+		// library types are opaque sorts Ext_<path>_<Type>
+		if strings.HasPrefix(ssort, "Ext_") && strings.HasSuffix(ssort, "_"+pkg+"_"+name) {
+			return ts
+		}
 	}
 	return nil
 }
